@@ -76,6 +76,7 @@ partial def decFilter : SExp → Option Filter
   | .list [.atom "labelsel", ls] => do pure (labelSelectorF (← decLS ls))
   | .list [.atom "sel", .atom "everything"] => some (.selector (.reqs []))
   | .list [.atom "sel", .atom "nothing"] => some (.selector .nothing)
+  | .list [.atom "sel", .atom "everything-nil"] => some (.selector .nilReqs)
   | .list [.atom "fn", .atom n] => do pure (.fn (← n.toNat?))
   | .list [.atom "node", names] => do pure (nodeF (← decStrs names))
   | .list [.atom "involved", .atom k, .atom ns, .atom n] => some (.involved k ns n)
